@@ -562,7 +562,9 @@ class Parser:
     def postfix(self, e, ns):
         while True:
             if self.at("?"):
-                self.fail("`?` operator")
+                self.i += 1
+                e = ("try", e)
+                continue
             if self.at("."):
                 self.i += 1
                 if self.at_id("await"):
@@ -606,7 +608,14 @@ class Parser:
                 self.dropped.append(f"#[cfg(feature = \"verif\")] statement (line {line})")
                 continue
             if self.at("#") and self.peek().v == "[" and self.toks[self.i + 2].v == "cfg":
-                self.fail("`#[cfg(...)]` on a statement")
+                # conditional compilation of a statement: parsed, rejected by the emitter
+                self.i = match_close(self.toks, self.i + 1) + 1
+                if self.at_id("let"):
+                    self.fail("`#[cfg(...)]` on a statement (`let`)")
+                inner = self.expr()
+                self.eat(";")
+                stmts.append(("expr", ("cfg", inner)))
+                continue
             self.skip_attrs()
             if self.eat(";"):
                 continue
@@ -845,7 +854,8 @@ class Parser:
                 self.fail("matches! with unexpected arguments")
             self.i += 1
             return ("matches", e, pat, guard)
-        self.fail(f"macro `{'::'.join(segs)}!`")
+        self.i = close_i + 1
+        return ("macro", "::".join(segs))
 
 
 def parse_fn(toks, i, fname):
@@ -857,6 +867,7 @@ def parse_fn(toks, i, fname):
         p.generic_args()
     p.expect("(")
     params = []
+    mutref = []
     while not p.at(")"):
         p.skip_attrs()
         if p.at("&") and (p.peek().v in ("self", "mut") or p.peek().k == "life"):
@@ -874,6 +885,13 @@ def parse_fn(toks, i, fname):
             p.eat("mut", "id")
             nm = p.ident()
             p.expect(":")
+            j = p.i
+            if p.at("&"):
+                j += 1
+                if p.toks[j].k == "life":
+                    j += 1
+                if p.toks[j].k == "id" and p.toks[j].v == "mut":
+                    mutref.append(nm)
             params.append((nm, p.ty()))
         if not p.eat(","):
             break
@@ -885,7 +903,7 @@ def parse_fn(toks, i, fname):
         while not p.at("{"):
             p.i += 1
     body = p.block()
-    return {"name": name, "params": params, "ret": ret, "body": body, "dropped": p.dropped, "line": toks[i].line}
+    return {"name": name, "params": params, "ret": ret, "body": body, "dropped": p.dropped, "line": toks[i].line, "mutref": mutref}
 
 
 def parse_enum(toks, i, fname):
@@ -1271,6 +1289,10 @@ class FnTr:
         env = {}
         params = []
         self.self_kind = None
+        self.cas = False
+        self.ret_ty = None
+        if self.fspec.get("mode") in ("if_condition", "closure_arg"):
+            return self.emit_fragment(self.fspec["mode"], [], a.spec.get("fn_params", ""))
         for p in fn["params"]:
             if p[0] == "self":
                 self.self_kind = p[1]
@@ -1290,6 +1312,12 @@ class FnTr:
         if self.self_kind == "mut":
             sself = a.lean_ty(T(self.self_ty))
             lret = sself if fn["ret"] is None else f"{sself} × {lret}"
+        self.mutref = [m for m in fn.get("mutref", []) if m in env]
+        if self.mutref:
+            if self.self_kind == "mut":
+                self.fail("`&mut` parameters together with `&mut self`")
+            outs = [a.lean_ty(env[m][1], self.self_ty) for m in self.mutref] + ([lret] if fn["ret"] is not None else [])
+            lret = " × ".join(self.par(o) if " " in o else o for o in outs)
         extra = a.spec.get("fn_params", "")
         mode = self.fspec.get("mode")
         if self.fspec.get("atomic_self") and self.self_kind == "ref":
@@ -1342,6 +1370,8 @@ class FnTr:
             ps.append(f"({lean_ident(name)} : {a.lean_ty(ty)})")
         if mode == "if_condition":
             ifs = [n for n in walk(fn["body"]) if n and n[0] == "if" and n[1][0] != "let"]
+            if self.fspec.get("mentions"):
+                ifs = [n for n in ifs if any(x and x[0] == "path" and self.fspec["mentions"] in x[1] for x in walk(n[1]))]
             k = self.fspec.get("index", 0)
             if k >= len(ifs):
                 self.fail(f"mode if_condition: the body has no `if` number {k}")
@@ -1371,6 +1401,9 @@ class FnTr:
         val = v.lean if v is not None else "()"
         if self.cas:
             return f".done {self.par(val)}"
+        if getattr(self, "mutref", None):
+            outs = [env[m][0] for m in self.mutref] + ([val] if self.fn["ret"] is not None else [])
+            return outs[0] if len(outs) == 1 else "(" + ", ".join(outs) + ")"
         if self.self_kind == "mut":
             s = env["self"][0]
             return s if self.fn["ret"] is None else f"({s}, {val})"
@@ -1393,11 +1426,12 @@ class FnTr:
 
     def has_effect(self, e):
         for n in walk(e):
-            if n and n[0] in ("return", "assign", "loop", "while", "for"):
+            if n and n[0] in ("return", "assign", "loop", "while", "for", "cfg", "try", "macro"):
                 return True
             if n and n[0] == "let" and len(n) == 5 and n[4] is not None:
                 return True
             if n and n[0] == "mcall" and isinstance(n[2], str) and (n[2] in self.MUTATING or self.is_sibling_mut(n)
+                                                                   or n[2] in self.a.spec.get("mut_methods", {})
                                                                    or (n[2] in self.a.spec.get("mutarg_methods", {}) and len(n[3]) == 1)):
                 return True
         return False
@@ -1422,7 +1456,8 @@ class FnTr:
             r = None
             if n and n[0] == "assign":
                 r = root(n[2])
-            elif n and n[0] == "mcall" and isinstance(n[2], str) and (n[2] in self.MUTATING or self.is_sibling_mut(n)):
+            elif n and n[0] == "mcall" and isinstance(n[2], str) and (n[2] in self.MUTATING or self.is_sibling_mut(n)
+                                                                     or n[2] in self.a.spec.get("mut_methods", {})):
                 r = root(n[1])
             if r and r in env and r not in out:
                 out.append(r)
@@ -1517,6 +1552,15 @@ class FnTr:
             return self.exk(e[1], env, self.ret_k)
         if t in ("while", "for"):
             self.fail(f"`{t}` loop (only iterator chains and compare-exchange retry loops are in the subset)")
+        if t == "cfg":
+            self.fail("`#[cfg(...)]` on a statement")
+        if t == "try":
+            self.fail("`?` operator")
+        if t == "macro":
+            self.fail(f"macro `{e[1]}!`")
+        for n in walk(e):
+            if n is not e and n and n[0] in ("cfg", "try", "macro") and t not in ("if", "match", "block", "paren", "ref", "deref", "assign", "mcall"):
+                self.fail({"cfg": "`#[cfg(...)]` on a statement", "try": "`?` operator", "macro": f"macro `{n[1]}!`"}[n[0]])
         if t == "loop":
             return self.cas_loop(e[1], env)
         if t in ("paren", "ref", "deref"):
@@ -1550,6 +1594,9 @@ class FnTr:
             return self.assign_to(lhs, rv, env, k)
         if t == "mcall":
             recv, name, args = e[1], e[2], e[3]
+            if name in ("expect", "unwrap") and self.has_effect(recv):
+                self.dropped.append(f"`.{name}()` on the result of a mutating call (the call itself is kept)")
+                return self.exk(recv, env, k)
             if any(self.has_effect(x) for x in args) or (self.has_effect(recv)):
                 self.fail(f"effect inside the arguments/receiver of `.{name}()`")
             if self.is_sibling_mut(e):
@@ -1562,6 +1609,11 @@ class FnTr:
                     return f"let {env['self'][0]} := {call};\n{k(env, None)}"
                 r = self.fresh()
                 return f"let {r} := {call};\nlet {env['self'][0]} := {r}.1;\n{k(env, Val(r + '.2', self.resolve_ty(fi['ret'])))}"
+            mm = self.a.spec.get("mut_methods", {}).get(name)
+            if mm is not None:
+                rv = self.ex(recv, env)
+                argv = [self.par(self.ex(x, env).lean) for x in args]
+                return self.assign_to(recv, Val(mm.format(self.par(rv.lean), *argv), rv.ty), env, k)
             ma = self.a.spec.get("mutarg_methods", {}).get(name)
             if ma is not None and len(args) == 1:
                 rv = self.ex(recv, env)
